@@ -36,13 +36,20 @@ ReqMatches(c) ==
   /\ E.op = "get" /\ E.name[1] = "latest" => (E.found = (latest # NoLatest) /\ (E.found => E.val = latest))
   /\ E.op = "cas" => (E.swapped = (cl'[c].rres = "swapped") /\ E.new = cl[c].new
                        /\ E.expect = cl[c].seen)
-  /\ E.op = "list" /\ E.name[1] = "vall" => Names(E.names) = {<<"v", e[1], e[2]>> : e \in vers}
-  /\ E.op = "list" /\ E.name[1] = "v" =>
+  \* what a listing request returned: everything matching (atomic), or the next page
+  /\ E.op = "list" /\ PageSize = 0 /\ E.name[1] = "vall" => Names(E.names) = {<<"v", e[1], e[2]>> : e \in vers}
+  /\ E.op = "list" /\ PageSize = 0 /\ E.name[1] = "v" =>
         Names(E.names) = {<<"v", e[1], e[2]>> : e \in {x \in vers : x[1] = E.name[2]}}
-  /\ E.op = "list" /\ E.name[1] = "s" => Names(E.names) = {<<"s", s, 0>> : s \in snaps}
+  /\ E.op = "list" /\ PageSize = 0 /\ E.name[1] = "s" => Names(E.names) = {<<"s", x, 0>> : x \in snaps}
+  /\ E.op = "list" /\ PageSize > 0 /\ ListPc(c) /\ E.name[1] # "s" =>
+        Names(E.names) = {<<"v", n[1], n[2]>> : n \in LPage(c)}
+  /\ E.op = "list" /\ PageSize > 0 /\ ListPc(c) /\ E.name[1] = "s" =>
+        Names(E.names) = {<<"s", n[1], 0>> : n \in LPage(c)}
 
 Steps(c) ==
-  \/ AV1(c) \/ AV2(c) \/ AV4(c) \/ AV5(c)
+  \/ AV1(c) \/ AV4(c) \/ AV5(c)
+  \/ (E.op = "put" /\ E.name[1] = "v" /\ AV2(c, E.name[3]))
+  \/ ListStep(c)
   \/ CLL(c) \/ CLV(c) \/ CLS(c) \/ CLXO(c)
   \/ (\E e \in cl[c].dels : CLD(c, e))
   \/ (\E s \in cl[c].sdel : CLXS(c, s))
@@ -69,7 +76,8 @@ TFault ==
               \/ (\E s \in cl[E.c].sdel : CLXS(E.c, s)) \cdot CLAbort(E.c)
               \/ CLXO(E.c) \cdot CLAbort(E.c)
      ELSE IF E.fault = "before" \/ E.op \in {"get", "list"} THEN FailBefore(E.c)
-     ELSE FailAfterPut(E.c) \/ FailAfterCas(E.c) \/ FailAfterDel(E.c) \/ FailAfterSnap(E.c)
+     ELSE (E.op = "put" /\ E.name[1] = "v" /\ FailAfterPut(E.c, E.name[3]))
+          \/ FailAfterCas(E.c) \/ FailAfterDel(E.c) \/ FailAfterSnap(E.c)
 
 TReturn ==
   /\ IsEvent("Return")
